@@ -118,6 +118,10 @@ def sk_roundtrip(tier):
                 continue
             out.append({"ndim": k, "layout": layout})
     out.append({"ndim": 2, "layout": "long_columns", "overlap": True})
+    # two dimensions over the very same items (origin / destination), told apart by their names or letters only
+    for lay in ("long_index", "long_columns"):
+        out.append({"ndim": 3, "layout": lay, "same_items": True})
+    out.append({"ndim": 2, "layout": "headerless_lookalike"})
     return out
 
 
@@ -135,6 +139,40 @@ def u_roundtrip(W, sk):
     from flodym.flodym_arrays import FlodymArray
 
     rng = W.rng
+    if sk["layout"] == "headerless_lookalike":
+        # a CSV file without a header line whose first row holds a value that reads like a continuation of an item in
+        # the same row (item 0 and value 0.25, year 2000 and value 2000.5): pandas takes that row for column names
+        from flodym.dimensions import Dimension, DimensionSet
+
+        ints = rng.choice([[0, 1, 2], [2000, 2010], [1, 2, 3, 4]])
+        A = Dimension(name="Age" if ints[0] < 100 else "Year", letter="a", items=list(ints), dtype=int)
+        R = Dimension(name="Region", letter="r", items=["EU", "US", "CN"][: rng.choice([1, 2, 3])], dtype=str)
+        pair = [A, R]
+        rng.shuffle(pair)
+        dims = DimensionSet(dim_list=pair)
+        vals = np.zeros(dims.shape)
+        for idx in np.ndindex(*dims.shape):
+            a_item = A.items[idx[pair.index(A)]]
+            vals[idx] = float(a_item) + rng.choice([0.25, 0.5, 0.75, 0.125]) + (0.0 if rng.random() < 0.7 else 1.0)
+        x = FlodymArray(dims=dims, values=vals.copy())
+        g = long_table(x)
+        if rng.random() < 0.6:
+            g = g.sample(frac=1.0, random_state=rng.randrange(10**6))
+        W.inputs["table"] = g.astype(str).values.tolist()
+        d_ = tempfile.mkdtemp(prefix="fvc_csv_")
+        try:
+            path = os.path.join(d_, "x.csv")
+            g.to_csv(path, index=False, header=False)
+            g = pd.read_csv(path, float_precision="round_trip")
+        finally:
+            import shutil
+
+            shutil.rmtree(d_, ignore_errors=True)
+        back = W.call(lambda: FlodymArray.from_df(dims=dims, df=g))
+        W.prove("from_df(header-less file, look-alike first row).returns", back.kind == "return", detail=repr(back))
+        if back.kind == "return":
+            W.prove("from_df(header-less file, look-alike first row).identical_array", back.value.values.shape == vals.shape and bool(np.array_equal(back.value.values, vals)), detail=f"got {np.array(back.value.values).tolist()} expected {vals.tolist()}")
+        return
     dims = make_dims(W, sk["ndim"])
     if sk.get("overlap"):
         # two dimensions whose item sets overlap or are nested (but differ), identified only through their items
@@ -147,6 +185,13 @@ def u_roundtrip(W, sk):
         pair = [Dimension(name="Region", letter="r", items=a, dtype=str), Dimension(name="Destination", letter="d", items=b, dtype=str)]
         rng.shuffle(pair)
         dims = DimensionSet(dim_list=pair)
+    if sk.get("same_items"):
+        from flodym.dimensions import Dimension, DimensionSet
+
+        regions = ["EU", "US", "CN"][: rng.choice([2, 3])]
+        trio = [Dimension(name="Origin", letter="o", items=list(regions), dtype=str), Dimension(name="Destination", letter="d", items=list(regions), dtype=str), Dimension(name="Time", letter="t", items=[2000, 2010][: rng.choice([1, 2])], dtype=int)]
+        rng.shuffle(trio)
+        dims = DimensionSet(dim_list=trio)
     layout = sk["layout"]
     sparse = layout == "sparse"
     x = make_array(W, dims, zeros=0.4 if sparse else 0.0)
@@ -187,6 +232,8 @@ def u_roundtrip(W, sk):
     style = rng.choice(["names", "letters", "items_only"])
     if sk.get("overlap"):
         style = "items_only"
+    if sk.get("same_items"):
+        style = rng.choice(["names", "names", "letters"])
     name2letter = {d.name: d.letter for d in dims.dim_list}
     if style == "letters":
         g = g.rename(columns=name2letter)
@@ -228,7 +275,7 @@ def u_roundtrip(W, sk):
 
             shutil.rmtree(d_, ignore_errors=True)
         steps.append("CSV without header line")
-    elif rng.random() < 0.4:
+    elif rng.random() < (0.2 if sk.get("same_items") else 0.4):
         d_ = tempfile.mkdtemp(prefix="fvc_csv_")
         try:
             path = os.path.join(d_, "x.csv")
@@ -245,13 +292,27 @@ def u_roundtrip(W, sk):
     # allow_missing_values is needed for sparse tables; for complete tables it must not change anything
     am = sparse or rng.random() < 0.4
     W.inputs["allow_missing_values"] = am
-    back = W.call(lambda: FlodymArray.from_df(dims=dims, df=g, allow_missing_values=am))
+    # the receiving array may store the dimensions in another order than the exporting one (labels decide)
+    tdims, perm = dims, list(range(len(dims.dim_list)))
+    if len(perm) > 1 and "items only" not in steps and "CSV without header line" not in steps and (sk.get("same_items") or rng.random() < 0.5):
+        from flodym.dimensions import DimensionSet
+
+        if sk.get("same_items") and rng.random() < 0.7:
+            # only the two dimensions over the same items change places
+            i_o, i_d = [i for i, d in enumerate(dims.dim_list) if d.letter in ("o", "d")]
+            perm[i_o], perm[i_d] = perm[i_d], perm[i_o]
+        while perm == sorted(perm):
+            rng.shuffle(perm)
+        tdims = DimensionSet(dim_list=[dims.dim_list[i] for i in perm])
+        W.inputs["receiving_array_stores_dimensions_in_order"] = [dims.dim_list[i].letter for i in perm]
+    back = W.call(lambda: FlodymArray.from_df(dims=tdims, df=g, allow_missing_values=am))
     W.prove("from_df.given_table_unchanged", same_frame(g, g0), detail=f"after {steps}: columns {list(g0.columns)} -> {list(g.columns)}, dtypes {[str(t) for t in g0.dtypes]} -> {[str(t) for t in g.dtypes]}")
     W.prove("from_df.returns", back.kind == "return", detail=f"{back!r} after {steps}")
     if back.kind != "return":
         return
     y = back.value
-    W.prove("from_df.identical_array", y.dims.letters == x.dims.letters and y.values.shape == x.values.shape and bool(np.allclose(y.values, x.values, rtol=0, atol=1e-12)), detail=f"after {steps}")
+    want_vals = np.transpose(x.values, perm) if len(perm) > 1 else x.values
+    W.prove("from_df.identical_array", y.dims.letters == tdims.letters and y.values.shape == want_vals.shape and bool(np.allclose(y.values, want_vals, rtol=0, atol=1e-12)), detail=f"after {steps}")
     SL.check_wf(W, "from_df.result", y)
     W.prove("from_df.source_unchanged", bool(np.array_equal(x.values, snap)))
 
@@ -342,6 +403,9 @@ def u_faults(W, sk):
         longest = max(d0.items, key=len)
         cand = {"Atlantis": "Atlantis", "extended": longest + "27", "cut_short": longest[:-1], "other_case": longest.swapcase(), "padded": longest + " "}
         kind_ = rng.choice(list(cand))
+        numeric_looking = longest.strip().replace(".", "", 1).lstrip("+-").isdigit()
+        if kind_ == "padded" and (numeric_looking or sk["via"] == "csv_reader"):
+            kind_ = "extended"  # (a CSV parser reads '3000 ' as the number 3000: not an unknown item any more)
         if cand[kind_] and cand[kind_] not in d0.items:
             unknown = cand[kind_]
             W.inputs["unknown_item"] = unknown
